@@ -23,8 +23,8 @@ def probe(binp, args):
     return json.loads(out.strip().splitlines()[-1])
 
 
-def size_consts(lim, reserve, klens, fixed, dists, digits, maxadds):
-    return L.K(MaxSize=lim["maxBatchSize"], MaxCount=lim["maxBatchCount"], Threshold=lim["threshold"], Reserve=reserve,
+def size_consts(lim, reserve, klens, fixed, dists, digits, maxadds, inmem=False):
+    return L.K(MaxSize=lim["maxBatchSize"], MaxCount=lim["maxBatchCount"], Threshold=lim["threshold"], InMem=inmem, Reserve=reserve,
                KLens=klens, FixedV=fixed, Dists=dists, Digits=digits, MaxAdds=maxadds)
 
 
@@ -72,6 +72,14 @@ def body(c):
     intended = 11 + 8 + 2 + 20
     mcK = size_consts(lim, intended, [1, 12], [0, 7, lim["threshold"]], [0, 1, 2, 3, 4, 21, 41], [1, 2, 3, 10, 20], 3 if q else 5)
     L.mc(c, "TxnSize", "reserve41", mcK, ["TypeOK", "AcceptedFits", "BudgetCovers"], timeout=900)
+    # in-memory mode: no value log, values up to and including the threshold are budgeted and sent inline
+    imargs = ["-memtable", "8000", "-vthreshold", "300", "-inmem"]
+    limi = probe(binp, imargs)
+    c.cov["measured_limits"]["inmem memtable=8000 thr=300"] = limi
+    thr = limi["threshold"]
+    L.mc(c, "TxnSize", "inmem-reserve41", size_consts(limi, intended, [1, 12], [0, thr - 1, thr, thr + 1], [0, 1, 2, 21],
+                                                        [1, 3, 20], 4 if q else 5, inmem=True),
+         ["TypeOK", "AcceptedFits", "BudgetCovers"], timeout=900)
     cx = L.expect_counterexample(c, "TxnSize", "reserve21", dict(mcK, Reserve="21"), "AcceptedFits")
     c.cov["reserve21_counterexample_found"] = bool(cx.violation)
     if not cx.violation:
@@ -83,11 +91,13 @@ def body(c):
              ("m16000", ["-memtable", "16000"], [1], [0, 7], [0, 1, 2, 3, 4, 5, 21], 3 if q else 4)]
     if q:
         confs = confs[:1] + confs[2:]
+    confs.append(("inmem-m8000-thr300", imargs, [1], [0, thr - 1, thr, thr + 1], [0, 1], 4 if q else 5))
     for name, args, klens, fixed, dists, maxadds in confs:
+        inmem = "-inmem" in args
         lim2 = probe(binp, args)
         c.cov["measured_limits"][name] = lim2
         k = size_consts(lim2, lim2["reserve"], klens, [v for v in fixed if v < lim2["maxBatchSize"]] + [lim2["threshold"]],
-                        dists, [1, 2, 3, 10, 20], maxadds)
+                        dists, [1, 2, 3, 10, 20] if not inmem else [1, 3, 20], maxadds, inmem=inmem)
         allcases = L.gen(c, "TxnSizeGen", name, k, timeout=900)
         c.cov.setdefault("size_cases_generated", {})[name] = len(allcases)
         for dbmode, digs in (("managed", [1, 2, 3, 10, 20]), ("plain", [1, 2, 3])):
@@ -105,6 +115,8 @@ def body(c):
             total += len(cases)
             tight += sum(1 for h in cases if h[-1]["tight"])
             keys |= set(short_size(h) for h in cases if len(h) >= 2)
+            c.cov["size_cases_with_value_length_equal_threshold_inmem"] = c.cov.get("size_cases_with_value_length_equal_threshold_inmem", 0) + \
+                (sum(1 for h in cases if any(s["op"] == "add" and s["v"] == lim2["threshold"] and s["res"] == "ok" for s in h)) if inmem else 0)
             if dbmode == "managed" and name == "m4000-thrmax":
                 for h in [h for h in cases if h[-1]["tight"]][:1] + [h for h in cases if len(h) >= 4][:1]:
                     c.sample(short_size(h))
